@@ -48,6 +48,8 @@ pub enum ExecStep {
     CreateNowWith(u8, u32),
     /// build a second, unrelated world inside the closure, queue a lazy action on it and maintain it
     OtherWorld,
+    /// use a lazy builder (deferred entity + queued component) from inside the running closure
+    LazyCreateWith(u8, u32),
     DeleteNow(Sel),
     DeleteAtomic(Sel),
     InsertNow(u8, Sel, u32),
@@ -84,6 +86,10 @@ pub enum Op {
     LazyExec(Vec<ExecStep>),
     /// deserialise data that mentions `n` unknown markers (creates `n` entities through the shared entities resource)
     Deserialize(u8),
+    /// switch event emission of a tracked storage off / on (storage-event-control builds only)
+    SetEmission(u8, bool),
+    /// MarkerAllocator::retrieve_entity for a marker id seen before (its entity may be dead by now)
+    Retrieve(u8),
 }
 
 #[derive(Clone, Debug, Serialize, Deserialize, Hash, PartialEq, Eq)]
@@ -117,6 +123,7 @@ enum RStep {
     CreateNow,
     CreateNowWith(usize, u32),
     OtherWorld,
+    LazyCreateWith(usize, u32),
     DeleteNow(Entity),
     DeleteAtomic(Entity),
     InsertNow(usize, Entity, u32),
@@ -189,6 +196,8 @@ pub struct HistTag;
 
 pub struct Interp {
     next_marker: u64,
+    /// marker id -> entity that got it (creation during deserialisation)
+    marker_owner: BTreeMap<u64, Entity>,
     world: Option<World>,
     kinds: Arc<Vec<Kind>>,
     handles: Vec<Handle>,
@@ -207,8 +216,11 @@ pub struct Interp {
     dead_since_maintain: BTreeSet<u32>,
     any_death: bool,
     readers: Vec<Option<ReaderId<specs::storage::ComponentEvent>>>,
+    emission: Vec<bool>,
     /// serials of values the model says were destroyed by the library in the current step
     expect_destroyed: Vec<(u64, u32, Kind)>,
+    /// first violation of another property's model-independent oracle (reported if nothing else is)
+    deferred_other: Option<Violation>,
 }
 
 fn v(prop: &str, sig: &str, msg: String) -> Violation {
@@ -297,6 +309,11 @@ fn st_events<C: crate::stoseq::Caps>(world: &World, r: &mut ReaderId<specs::stor
     C::read_events(&st, r)
 }
 
+fn st_set_emission<C: crate::stoseq::Caps>(world: &World, on: bool) -> bool {
+    let mut st = world.write_storage::<C>();
+    C::set_emission(&mut st, on)
+}
+
 fn st_register_reader<C: crate::stoseq::Caps>(world: &World) -> Option<ReaderId<specs::storage::ComponentEvent>> {
     let mut st = world.write_storage::<C>();
     C::register_reader(&mut st)
@@ -320,6 +337,22 @@ fn st_get<C: ZooComp>(world: &World, e: Entity) -> (Option<Ident>, bool, Result<
     (g.map(|c| c.ident()), st.contains(e), chk)
 }
 
+/// The same lookup through one of the four GenericReadStorage impls.
+fn st_get_generic<C: ZooComp>(world: &World, e: Entity) -> Option<Ident> {
+    match e.id() % 4 {
+        0 => {
+            let st = world.read_storage::<C>();
+            crate::stoseq::gr_get(&st, e)
+        }
+        1 => crate::stoseq::gr_get(world.read_storage::<C>(), e),
+        2 => crate::stoseq::gr_get(world.write_storage::<C>(), e),
+        _ => {
+            let ws = world.write_storage::<C>();
+            crate::stoseq::gr_get(&ws, e)
+        }
+    }
+}
+
 fn st_contains<C: ZooComp>(world: &World, e: Entity) -> bool {
     world.read_storage::<C>().contains(e)
 }
@@ -327,7 +360,15 @@ fn st_contains<C: ZooComp>(world: &World, e: Entity) -> bool {
 fn st_insert<C: ZooComp>(world: &World, e: Entity, payload: u32) -> (bool, Option<Ident>, Ident) {
     let c = C::make(payload);
     let new = c.ident();
-    let r = world.write_storage::<C>().insert(e, c);
+    // inherent method / GenericWriteStorage for WriteStorage / GenericWriteStorage for &mut WriteStorage
+    let r: Result<Option<C>, ()> = match payload % 3 {
+        0 => world.write_storage::<C>().insert(e, c).map_err(|_| ()),
+        1 => crate::stoseq::gw_insert(world.write_storage::<C>(), e, c),
+        _ => {
+            let mut st = world.write_storage::<C>();
+            crate::stoseq::gw_insert(&mut st, e, c)
+        }
+    };
     match r {
         Ok(old) => {
             let id = old.as_ref().map(|o| o.ident());
@@ -346,13 +387,22 @@ fn st_remove<C: ZooComp>(world: &World, e: Entity) -> Option<Ident> {
 }
 
 fn st_get_mut<C: ZooComp>(world: &World, e: Entity, payload: u32) -> Option<Ident> {
-    let mut st = world.write_storage::<C>();
-    let r = st.get_mut(e).map(|mut a| {
-        let id = a.ident();
-        a.access_mut().set_payload(payload);
-        id
-    });
-    r
+    match payload % 3 {
+        0 => {
+            let mut st = world.write_storage::<C>();
+            let r = st.get_mut(e).map(|mut a| {
+                let id = a.ident();
+                a.access_mut().set_payload(payload);
+                id
+            });
+            r
+        }
+        1 => crate::stoseq::gw_get_mut(world.write_storage::<C>(), e, Some(payload)),
+        _ => {
+            let mut st = world.write_storage::<C>();
+            crate::stoseq::gw_get_mut(&mut st, e, Some(payload))
+        }
+    }
 }
 
 /// `Err(())` = entry refused; `Ok((was_occupied, old ident, returned/removed ident, new ident))`
@@ -409,14 +459,13 @@ fn st_entry<C: ZooComp>(
 }
 
 fn st_get_or_default<C: ZooComp>(world: &World, e: Entity, payload: u32) -> Option<Ident> {
-    use specs::storage::GenericWriteStorage;
-    let mut st = world.write_storage::<C>();
-    let r = GenericWriteStorage::get_mut_or_default(&mut st, e).map(|mut a| {
-        let id = a.ident();
-        a.access_mut().set_payload(payload);
-        id
-    });
-    r
+    // both GenericWriteStorage impls: for WriteStorage and for &mut WriteStorage
+    if payload % 2 == 0 {
+        crate::stoseq::gw_get_or_default(world.write_storage::<C>(), e, Some(payload))
+    } else {
+        let mut st = world.write_storage::<C>();
+        crate::stoseq::gw_get_or_default(&mut st, e, Some(payload))
+    }
 }
 
 /// lookups by entity through lending joins; returns the idents seen by the
@@ -557,6 +606,16 @@ fn run_body(world: &mut World, kinds: &Arc<Vec<Kind>>, body: RExec, log: &Log) {
                 let e = b.build();
                 log.lock().unwrap().push(LogEntry::CreatedWith(e, id));
             }
+            RStep::LazyCreateWith(slot, p) => {
+                let (e, id) = {
+                    let ents = world.entities();
+                    let lazy = world.read_resource::<LazyUpdate>();
+                    let b = lazy.create_entity(&ents);
+                    let (b, id) = with_kind!(kinds[slot], lazy_builder_with(b, p));
+                    (b.build(), id)
+                };
+                log.lock().unwrap().push(LogEntry::CreatedWith(e, id));
+            }
             RStep::OtherWorld => {
                 let mut w2 = World::new();
                 let ran = Arc::new(Mutex::new(0u32));
@@ -601,12 +660,15 @@ impl Interp {
         zoo::ledger_reset();
         let mut world = World::new();
         let mut kinds = vec![];
+        let mut start_off: Vec<bool> = vec![];
         for (k, path) in storages {
             if kinds.contains(k) {
                 continue;
             }
             kinds.push(*k);
-            with_kind!(*k, register_path(&mut world, *path));
+            with_kind!(*k, register_path(&mut world, *path & 0x7f));
+            // bit 7 of the path byte: a tracked storage starts with event emission switched off
+            start_off.push(*path & 0x80 != 0);
         }
         world.register::<specs::saveload::SimpleMarker<HistTag>>();
         world.insert(specs::saveload::SimpleMarkerAllocator::<HistTag>::new());
@@ -615,10 +677,19 @@ impl Interp {
             .iter()
             .map(|k| with_kind!(*k, st_register_reader(&world)))
             .collect();
+        let mut emission = vec![true; n];
+        for (slot, k) in kinds.iter().enumerate() {
+            if start_off[slot] && with_kind!(*k, st_set_emission(&world, false)) {
+                emission[slot] = false;
+            }
+        }
         Interp {
             readers,
+            emission,
             expect_destroyed: vec![],
+            deferred_other: None,
             next_marker: 0,
+            marker_owner: BTreeMap::new(),
             world: Some(world),
             kinds: Arc::new(kinds),
             handles: vec![],
@@ -1234,7 +1305,9 @@ impl Interp {
                     let mods: BTreeSet<u32> = evs.iter().filter_map(|ev| if let specs::storage::ComponentEvent::Modified(i) = ev { Some(*i) } else { None }).collect();
                     let other: Vec<&specs::storage::ComponentEvent> = evs.iter().filter(|ev| !matches!(ev, specs::storage::ComponentEvent::Modified(_))).collect();
                     ensure!("C13", "restrict-insert-remove-event", other.is_empty(), "get_other / get_other_mut on {:?} emitted {:?}", kind, other);
-                    if member && r.is_some() {
+                    if !self.emission[slot] {
+                        ensure!("C12", "event-while-off", evs.is_empty(), "events {:?} emitted on {:?} while emission is switched off", evs, kind);
+                    } else if member && r.is_some() {
                         ensure!("C13", "restrict-missing-modified", mods.contains(&e.id()) && mods.len() == 1,
                             "get_other_mut({:?}) on {:?} wrote the component but the Modified events are {:?}", e, kind, mods);
                     } else {
@@ -1310,6 +1383,43 @@ impl Interp {
                 self.queue.push(QItem::Remove { slot, e });
                 self.note(|| format!("lazy_remove {} {:?}", slot, e));
             }
+            Op::Retrieve(sel) => {
+                use specs::saveload::{MarkerAllocator, SimpleMarker, SimpleMarkerAllocator};
+                if self.marker_owner.is_empty() {
+                    self.facts.skipped_ops += 1;
+                    return Ok(());
+                }
+                let keys: Vec<u64> = self.marker_owner.keys().cloned().collect();
+                let id = keys[*sel as usize % keys.len()];
+                let owner = self.marker_owner[&id];
+                let marker: SimpleMarker<HistTag> = serde_json::from_str(&format!("[{}]", id)).expect("marker json");
+                let got = {
+                    let world = self.w();
+                    let ents = world.entities();
+                    let mut markers = world.write_storage::<SimpleMarker<HistTag>>();
+                    let mut alloc = world.write_resource::<SimpleMarkerAllocator<HistTag>>();
+                    alloc.retrieve_entity(marker, &mut markers, &ents)
+                };
+                if self.is_alive_entity(owner) {
+                    ensure!("C15", "not-updated-in-place", got == owner, "retrieve_entity(marker {}) returned {:?} although the live {:?} carries that marker", id, got, owner);
+                } else {
+                    // the previous owner is dead: this is a creation
+                    self.on_created(got, false, false, "MarkerAllocator::retrieve_entity (marker of a dead entity)")?;
+                    self.marker_owner.insert(id, got);
+                }
+                self.note(|| format!("retrieve {} -> {:?}", id, got));
+            }
+            Op::SetEmission(sl, on) => {
+                if let Some(slot) = self.slot(*sl) {
+                    let kind = self.kinds[slot];
+                    if with_kind!(kind, st_set_emission(self.w(), *on)) {
+                        self.emission[slot] = *on;
+                        self.note(|| format!("set_emission {:?} {}", kind, on));
+                    } else {
+                        self.facts.skipped_ops += 1;
+                    }
+                }
+            }
             Op::Deserialize(n) => {
                 use specs::saveload::{DeserializeComponents, Marker, SimpleMarker, SimpleMarkerAllocator};
                 let n = (*n % 4) as u64;
@@ -1339,8 +1449,9 @@ impl Interp {
                     }
                     out
                 };
-                for e in &created {
+                for (e, i) in created.iter().zip(ids.iter()) {
                     self.on_created(*e, false, false, "deserialisation (MarkerAllocator::retrieve_entity)")?;
+                    self.marker_owner.insert(*i, *e);
                 }
                 self.note(|| format!("deserialize {:?}", created));
             }
@@ -1372,6 +1483,7 @@ impl Interp {
                 ExecStep::CreateNow => Some(RStep::CreateNow),
                 ExecStep::CreateNowWith(s, p) => self.slot(*s).map(|a| RStep::CreateNowWith(a, *p)),
                 ExecStep::OtherWorld => Some(RStep::OtherWorld),
+                ExecStep::LazyCreateWith(s, p) => self.slot(*s).map(|a| RStep::LazyCreateWith(a, *p)),
                 ExecStep::DeleteNow(sel) => self.resolve(*sel).map(|h| RStep::DeleteNow(self.handles[h].e)),
                 ExecStep::DeleteAtomic(sel) => self.resolve(*sel).map(|h| RStep::DeleteAtomic(self.handles[h].e)),
                 ExecStep::InsertNow(s, sel, p) => match (self.slot(*s), self.resolve(*sel)) {
@@ -1538,6 +1650,17 @@ impl Interp {
                                 }
                                 cur += 1;
                             }
+                            RStep::LazyCreateWith(slot, _) => {
+                                match log.get(cur) {
+                                    Some(LogEntry::CreatedWith(e, id)) => {
+                                        self.on_created(*e, false, false, "LazyUpdate::create_entity (in closure)")?;
+                                        queue.push_back(QItem::InsertLogged { slot, e: *e, ident: *id });
+                                    }
+                                    other => return Err(v("C09", "log-shape", format!("closure #{}: expected a creation record, got {:?}", body.id, other))),
+                                }
+                                cur += 1;
+                                self.facts.lazy_nested += 1;
+                            }
                             RStep::OtherWorld => {
                                 let got = log.get(cur).cloned();
                                 ensure!("C09", "other-world-maintain", got == Some(LogEntry::OtherWorldRan(true, true)),
@@ -1623,6 +1746,39 @@ impl Interp {
 
     /// Full comparison of the observable state with the model.
     pub fn check_state(&mut self) -> Verdict {
+        // Several properties' oracles look at the same step; evaluate the groups separately so that
+        // the violation of the property being checked is not hidden behind another property's.
+        let mut found: Vec<Violation> = vec![];
+        let mut soft: Vec<Violation> = vec![];
+        for group in 0..4 {
+            if let Err(v) = self.check_group(group) {
+                if group == 0 {
+                    soft.push(v);
+                } else {
+                    found.push(v);
+                }
+            }
+        }
+        // Ledger / lazy-log oracles (group 0) do not depend on the model staying in step. When they
+        // belong to another property than the one being checked the history goes on (the defect may
+        // show up later in this property's own terms); they are reported at the end otherwise.
+        let focus = crate::engine::focus();
+        for v in soft {
+            if v.prop == focus || focus.is_empty() {
+                found.insert(0, v);
+            } else if self.deferred_other.is_none() {
+                self.deferred_other = Some(v);
+            }
+        }
+        if found.is_empty() && self.transcript.is_some() {
+            self.snapshot();
+        }
+        crate::engine::pick_violation(found)
+    }
+
+    /// group 0: ledger + lazy log, 1: entity timeline, 2: allocator self-check, 3: storages
+    fn check_group(&mut self, group: u8) -> Verdict {
+        if group == 0 {
         // C08: ledger
         let errs = with_ledger(|l| l.take_errors());
         if let Some(e) = errs.first() {
@@ -1638,8 +1794,11 @@ impl Interp {
         }
         ensure!("C09", "ran-before-maintain", self.log.lock().unwrap().is_empty(),
             "lazy actions ran outside maintain: {:?}", self.log.lock().unwrap());
+        return Ok(());
+        }
         let world = self.world.as_ref().unwrap();
         let ents = world.entities();
+        if group == 1 {
         // C02: aliveness of every handle ever returned
         for h in &self.handles {
             let exp = matches!(h.state, HState::Live { .. });
@@ -1665,10 +1824,34 @@ impl Interp {
         let expect: Vec<Entity> = self.occupant.values().map(|h| self.handles[*h].e).collect();
         ensure!("C02", "join-mismatch", joined == expect,
             "(&entities).join() yields {:?}, the entities currently alive are {:?}", joined, expect);
+        // the lending and the parallel iteration must agree with it
+        let mut lent: Vec<Entity> = vec![];
+        {
+            let mut j = (&*ents).lend_join();
+            while let Some(e) = j.next() {
+                lent.push(e);
+            }
+        }
+        ensure!("C02", "lend-join-mismatch", lent == expect,
+            "(&entities).lend_join() yields {:?}, the entities currently alive are {:?}", lent, expect);
+        if self.handles.len() % 4 == 0 {
+            use specs::rayon::iter::ParallelIterator;
+            let mut par: Vec<Entity> = setup_pool().install(|| (&*ents).par_join().collect());
+            par.sort();
+            let mut want = expect.clone();
+            want.sort();
+            ensure!("C02", "par-join-mismatch", par == want,
+                "(&entities).par_join() yields {:?}, the entities currently alive are {:?}", par, want);
+        }
+        return Ok(());
+        }
+        if group == 2 {
         // H3
         for (kind, msg) in ents.verif_check() {
             let (p, s) = if kind == "leak" { ("C17", "allocator-leak") } else { ("C01", "allocator-overlap") };
             return Err(v(p, s, format!("allocator self-check: {}", msg)));
+        }
+        return Ok(());
         }
         drop(ents);
         // storages
@@ -1688,6 +1871,9 @@ impl Interp {
                 if let Err(msg) = chk {
                     return Err(v("C08", "exposed-dead-value", msg));
                 }
+                let gg = with_kind!(*kind, st_get_generic(world, h.e));
+                ensure!(if matches!(h.state, HState::Dead) { "C03" } else { "C05" }, "generic-get", gg == g,
+                    "GenericReadStorage::get({:?}) in {:?} = {:?} but Storage::get = {:?}", h.e, kind, gg, g);
                 match h.state {
                     HState::Dead => {
                         ensure!("C03", "stale-read", g.is_none() && !c,
@@ -1700,9 +1886,6 @@ impl Interp {
                     }
                 }
             }
-        }
-        if self.transcript.is_some() {
-            self.snapshot();
         }
         Ok(())
     }
@@ -1756,6 +1939,9 @@ pub fn run_history(h: &History, transcript: bool) -> Result<(Facts, Option<Vec<S
         it.step(op)?;
     }
     it.teardown()?;
+    if let Some(v) = it.deferred_other.take() {
+        return Err(v);
+    }
     Ok((it.facts.clone(), it.transcript.take()))
 }
 
@@ -1781,6 +1967,7 @@ fn exec_steps(depth: u32) -> BoxedStrategy<Vec<ExecStep>> {
         1 => Just(ExecStep::CreateNow),
         2 => (0u8..8, 1u32..1000).prop_map(|(s, p)| ExecStep::CreateNowWith(s, p)),
         1 => Just(ExecStep::OtherWorld),
+        2 => (0u8..8, 1u32..1000).prop_map(|(s, p)| ExecStep::LazyCreateWith(s, p)),
         1 => sel().prop_map(ExecStep::DeleteNow),
         1 => sel().prop_map(ExecStep::DeleteAtomic),
         2 => (0u8..8, sel(), 1u32..1000).prop_map(|(s, h, p)| ExecStep::InsertNow(s, h, p)),
@@ -1811,17 +1998,18 @@ pub struct Profile {
     pub stale: u32,
     pub lazy: u32,
     pub restrict: u32,
+    pub emission: u32,
     pub max_ops: usize,
     pub min_storages: usize,
     pub max_storages: usize,
 }
 
-pub const ALLOC_PROFILE: Profile = Profile { create: 10, delete: 10, maintain: 3, storage: 2, stale: 1, lazy: 1, restrict: 0, max_ops: 40, min_storages: 1, max_storages: 3 };
-pub const STALE_PROFILE: Profile = Profile { create: 6, delete: 5, maintain: 2, storage: 4, stale: 10, lazy: 1, restrict: 0, max_ops: 40, min_storages: 2, max_storages: 5 };
-pub const PURGE_PROFILE: Profile = Profile { create: 8, delete: 7, maintain: 2, storage: 8, stale: 1, lazy: 1, restrict: 0, max_ops: 40, min_storages: 3, max_storages: 8 };
-pub const LAZY_PROFILE: Profile = Profile { create: 5, delete: 4, maintain: 4, storage: 3, stale: 1, lazy: 12, restrict: 0, max_ops: 40, min_storages: 2, max_storages: 4 };
-pub const MIXED_PROFILE: Profile = Profile { create: 6, delete: 5, maintain: 2, storage: 8, stale: 3, lazy: 4, restrict: 0, max_ops: 40, min_storages: 2, max_storages: 6 };
-pub const RESTRICT_PROFILE: Profile = Profile { create: 6, delete: 5, maintain: 2, storage: 6, stale: 2, lazy: 0, restrict: 10, max_ops: 40, min_storages: 2, max_storages: 5 };
+pub const ALLOC_PROFILE: Profile = Profile { create: 10, delete: 10, maintain: 3, storage: 2, stale: 1, lazy: 1, restrict: 0, emission: 1, max_ops: 40, min_storages: 1, max_storages: 3 };
+pub const STALE_PROFILE: Profile = Profile { create: 6, delete: 5, maintain: 2, storage: 4, stale: 10, lazy: 1, restrict: 0, emission: 1, max_ops: 40, min_storages: 2, max_storages: 5 };
+pub const PURGE_PROFILE: Profile = Profile { create: 8, delete: 7, maintain: 2, storage: 8, stale: 1, lazy: 1, restrict: 0, emission: 5, max_ops: 60, min_storages: 3, max_storages: 8 };
+pub const LAZY_PROFILE: Profile = Profile { create: 5, delete: 4, maintain: 4, storage: 3, stale: 1, lazy: 12, restrict: 0, emission: 1, max_ops: 40, min_storages: 2, max_storages: 4 };
+pub const MIXED_PROFILE: Profile = Profile { create: 6, delete: 5, maintain: 2, storage: 8, stale: 3, lazy: 4, restrict: 0, emission: 2, max_ops: 40, min_storages: 2, max_storages: 6 };
+pub const RESTRICT_PROFILE: Profile = Profile { create: 6, delete: 5, maintain: 2, storage: 6, stale: 2, lazy: 0, restrict: 10, emission: 2, max_ops: 40, min_storages: 2, max_storages: 5 };
 
 pub fn op_strategy(p: Profile) -> BoxedStrategy<Op> {
     let create = prop_oneof![
@@ -1832,7 +2020,9 @@ pub fn op_strategy(p: Profile) -> BoxedStrategy<Op> {
         2 => (comps(), prop::bool::weighted(0.7)).prop_map(|(c, b)| Op::BuildEntity { comps: c, built: b }),
         2 => comps().prop_map(|c| Op::LazyCreate { comps: c }),
         1 => (0u8..4).prop_map(Op::Deserialize),
+        1 => any::<u8>().prop_map(Op::Retrieve),
     ];
+    let emission = (0u8..8, any::<bool>()).prop_map(|(s, b)| Op::SetEmission(s, b));
     let delete = prop_oneof![
         5 => sel().prop_map(Op::DeleteNow),
         4 => proptest::collection::vec(sel(), 1..5).prop_map(Op::DeleteBatch),
@@ -1879,6 +2069,7 @@ pub fn op_strategy(p: Profile) -> BoxedStrategy<Op> {
         p.stale => stale,
         p.lazy => lazy,
         p.restrict => restrict,
+        p.emission => emission,
     ]
     .boxed()
 }
@@ -1893,7 +2084,7 @@ fn entry_act() -> impl Strategy<Value = EntryAct> {
 }
 
 pub fn storages_strategy(min: usize, max: usize) -> impl Strategy<Value = Vec<(Kind, u8)>> {
-    (proptest::sample::subsequence(ALL_KINDS.to_vec(), min..=max), proptest::collection::vec(0u8..7, 12), any::<u64>()).prop_map(
+    (proptest::sample::subsequence(ALL_KINDS.to_vec(), min..=max), proptest::collection::vec((0u8..7, prop::bool::weighted(0.3)).prop_map(|(p, off)| p | if off { 0x80 } else { 0 }), ALL_KINDS.len()), any::<u64>()).prop_map(
         |(kinds, paths, rot)| {
             // rotate so that the order of registration varies too
             let n = kinds.len().max(1);
